@@ -787,20 +787,33 @@ theorem handleWriteCompletion_extra (e : Engine) (h : Extra false [] e.view) : E
 
 /-! ### keep-alive, ack timeouts, connection opened -/
 
+theorem queuePing_extra (e : Engine) (hinv : Inv e) (h : Extra false [] e.view) : ∀ e2, e.queuePing = some e2 → Extra false [] e2.view := by
+  intro e2 hq
+  unfold Engine.queuePing at hq
+  split at hq
+  · cases hq; exact h
+  · obtain ⟨e3, he3, hx⟩ := internalHigh_extra e .pingreq true hinv h
+    simp only [] at hq
+    rw [he3] at hq
+    cases hq
+    exact hx
+
 theorem serviceKeepAlive_extra (e : Engine) (hinv : Inv e) (h : Extra false [] e.view) : Extra false [] e.serviceKeepAlive.1.view := by
   unfold Engine.serviceKeepAlive
   split
   · split <;> exact h
   · split
     · split
-      · obtain ⟨e3, he3, hx⟩ := internalHigh_extra e .pingreq true hinv h
-        simp only []
-        rw [he3]
-        simp only []
-        split
-        · exact hx
-        · simp only []
-          split <;> exact hx
+      · have hq := queuePing_extra e hinv h
+        cases hqp : e.queuePing with
+        | none => exact h
+        | some e2 =>
+          simp only []
+          have hx := hq e2 hqp
+          split
+          · exact hx
+          · simp only []
+            split <;> exact hx
       · exact h
     · exact h
 
@@ -1315,7 +1328,9 @@ theorem onFullyWritten_extra (e e3 : Engine) (hw : e.onFullyWritten = some e3) (
         · exact { h2 with x1a := h2.x1a }
         · exact h2
       subst hw
-      exact h3.setCurrentNone
+      have h4 : Extra true [] (((e1.setOp { o with pingBase := some e.now }).startAckTimeout o.id).armPingDeadline o).view := by
+        rw [armPingDeadline_view]; exact h3
+      exact h4.setCurrentNone
 
 /-- the loop of `service_queue_aux` -/
 theorem serviceQueueAux_extra (all : Bool) (cap : Nat) : ∀ (fuel : Nat) (e : Engine), e.core.Ok → Big [] [] e.view → Extra false [] e.view →
